@@ -12,6 +12,9 @@ import Driver.Etrade
 import Driver.QuestradeOracle
 import Driver.Csvrt
 import Driver.Layout
+import Driver.Fx
+import Driver.FxCache
+import Driver.FxCrash
 open Driver
 
 def runLedger (c : Case) : Res :=
@@ -106,6 +109,9 @@ def dispatch (c : Case) : Res :=
   | "questrade" => runQuestrade c
   | "csvrt" => runCsvrt c
   | "layout" => runLayout c
+  | "fx" => runFx c
+  | "fxcache" => runFxCache c
+  | "fxcrash" => runFxCrash c
   | f => { verdict := "BADCASE", msg := s!"unknown family {f}" }
 
 def main : IO Unit := do
